@@ -301,3 +301,38 @@ func plainValue(t types.Type, depth int) bool {
 	}
 	return false
 }
+
+// smallHelper: a named function of the package under verification, without contract, loop-free, not recursive
+// and small enough to be executed in place at a call.
+func (f *frame) smallHelper(callee *ssa.Function) bool {
+	if callee == nil || callee.Parent() != nil || len(callee.Blocks) == 0 || f.fn == nil || callee.Pkg == nil {
+		return false
+	}
+	top := f.fn
+	for top.Parent() != nil {
+		top = top.Parent()
+	}
+	if top.Pkg == nil || callee.Pkg != top.Pkg || callee == top {
+		return false
+	}
+	n := 0
+	for _, b := range callee.Blocks {
+		n += len(b.Instrs)
+		for _, s := range b.Succs {
+			if s.Index <= b.Index && s.Dominates(b) {
+				return false // a loop
+			}
+		}
+		for _, in := range b.Instrs {
+			switch x := in.(type) {
+			case *ssa.Go, *ssa.Select, *ssa.Defer:
+				return false
+			case ssa.CallInstruction:
+				if x.Common().StaticCallee() == callee {
+					return false
+				}
+			}
+		}
+	}
+	return n <= 120
+}
